@@ -134,6 +134,18 @@ struct Symbol {
     props: SymbolProps,
 }
 
+/// Verification hook: one symbol of `Grammar::verif_dump` (index = position in the dump).
+#[cfg(feature = "llg_verif")]
+#[derive(Debug, Clone)]
+pub struct VerifSym {
+    pub name: String,
+    pub lexeme: Option<u32>,
+    pub special: bool,
+    /// not parametric, every rule unconditional and without parameter expressions
+    pub plain: bool,
+    pub rules: Vec<Vec<u32>>,
+}
+
 #[derive(Debug, Clone)]
 struct Rule {
     lhs: SymIdx,
@@ -817,6 +829,28 @@ impl Grammar {
             }
         }
         outp
+    }
+
+    /// Verification hook: structured, read-only dump of the rule graph.
+    #[cfg(feature = "llg_verif")]
+    pub fn verif_dump(&self) -> Vec<VerifSym> {
+        self.symbols
+            .iter()
+            .map(|sym| VerifSym {
+                name: sym.name.clone(),
+                lexeme: sym.lexeme.map(|l| l.as_usize() as u32),
+                special: self.is_special_symbol(sym),
+                plain: !sym.props.parametric
+                    && sym.rules.iter().all(|r| {
+                        r.condition.is_true() && r.rhs.iter().all(|(_, p)| p.is_null())
+                    }),
+                rules: sym
+                    .rules
+                    .iter()
+                    .map(|r| r.rhs.iter().map(|(s, _)| s.as_usize() as u32).collect())
+                    .collect(),
+            })
+            .collect()
     }
 
     pub fn optimize(&self) -> Self {
